@@ -202,6 +202,9 @@ fn read_parameter<'a>(c: &mut Cursor<&'a [u8]>) -> anyhow::Result<Option<(&'a [u
         std::str::from_utf8(&name[colon_pos + 1..]).map_err(|_| anyhow::anyhow!(MALFORMED_ERR_MSG))?;
 
       value_count = value_count_str.parse::<usize>().map_err(|_| anyhow::anyhow!(MALFORMED_ERR_MSG))?;
+      if value_count == 0 {
+        return Err(anyhow::anyhow!(MALFORMED_ERR_MSG));
+      }
       name = &name[..colon_pos]
     }
 
